@@ -6,7 +6,8 @@ EXPLAIN = ("bounded symbolic execution of the real pams code: the harness runs t
            "to exhaustion; counterexamples are replayed concretely on the real code before being reported")
 
 CHECKS = {
-    "C01": {"harnesses": [("harness.matching", "C01_ClearingRound"), ("harness.matching", "C01_Continuous")]},
+    "C01": {"harnesses": [("harness.matching", "C01_ClearingRound"), ("harness.matching", "C01_Continuous"),
+                          ("harness.priority", "C01_HeapMaintenance")]},
     "C02": {"harnesses": [("harness.priority", "C02_OrderLaws"), ("harness.priority", "C02_HeapMaintenance"),
                           ("harness.matching", "C02_ClearingRound"), ("harness.matching", "C02_Continuous")]},
     "C04": {"harnesses": [("harness.ophistory", "C04_OpHistory"), ("harness.ophistory", "C04_NegativeOps")]},
